@@ -113,6 +113,36 @@ fn reply_line(cx: &Cx) -> (Vec<u8>, &'static str, Known) {
         let l: &[u8] = *cx.pick(&[&b"\r\n"[..], &b"\n"[..], &b" \r\n"[..], &b"\t\r\n"[..], &b"\r\r\n"[..]]);
         return (l.to_vec(), "blank", Some(None));
     }
+    if cx.chance(1, 24) {
+        // a frame terminated by a bare LF: a line of its own, and not a frame
+        cx.probe("bare_lf_reply_line");
+        let mut l = Frame::from(Message::ReportState(gens::address(cx), gens::ALL_STATES[cx.draw(13) as usize])).to_bytes();
+        l.push(b'\n');
+        return (l, "bare-lf", Some(None));
+    }
+    if cx.chance(1, 32) {
+        // a long burst of line noise before the LF
+        cx.probe("noise_reply_longer_than_1k");
+        let n = 900 + cx.draw(8000) as usize;
+        let mut g = cx.bytes(n);
+        for b in g.iter_mut() {
+            if *b == b'\n' {
+                *b = b'~';
+            }
+        }
+        g.extend_from_slice(b"\r\n");
+        return (g, "long-noise", Some(None));
+    }
+    if cx.chance(1, 32) {
+        // frame-shaped, but the "digits" are non-ASCII decimal digits (U+0660..)
+        cx.probe("reply_of_non_ascii_digits");
+        let mut g: Vec<u8> = vec![b':'];
+        for _ in 0..(10 + 2 * cx.draw(4) as usize) {
+            g.extend_from_slice(&[0xD9, 0xA0 + cx.draw(10) as u8]);
+        }
+        g.extend_from_slice(b"\r\n");
+        return (g, "non-ascii-digits", Some(None));
+    }
     if cx.chance(1, 16) {
         // the far end stops in the middle of its line (no LF ever arrives)
         let mut l = Frame::from(Message::ReportState(gens::address(cx), gens::ALL_STATES[cx.draw(13) as usize])).to_bytes_with_newline();
@@ -411,7 +441,7 @@ impl Scenario for C16 {
         }
         let last = plan.len() - 1;
         let nops = base[last].ops.len();
-        let step = if nops > 60 { 1 + cx.draw(9) as usize } else { 1 };
+        let step = if nops > 400 { nops / 40 } else if nops > 60 { 1 + cx.draw(9) as usize } else { 1 };
         let mut j = if step > 1 { cx.draw(step as u64) as usize } else { 0 };
         while j < nops {
             let mut p2 = plan.clone();
@@ -707,7 +737,12 @@ impl Scenario for C20 {
         let parity = take(3) as u8;
         let cs = take(4) as u8;
         let bi = take(12) as usize;
-        let baud = if BAUDS[bi] == 0 { *cx.pick(&[14400usize, 1, 250000, 19201, 19199, 0]) } else { BAUDS[bi] };
+        let baud = if BAUDS[bi] == 0 {
+            // other speeds, including ones that alias 19200 in a narrower integer
+            *cx.pick(&[14400usize, 1, 250000, 19201, 19199, 0, 19200 + (1usize << 32), 19200 + (1usize << 16), 19200 + (3usize << 32), usize::MAX])
+        } else {
+            BAUDS[bi]
+        };
         let baud_unreported = cx.chance(1, 8);
         if baud_unreported {
             cx.probe("prior_speed_unreported");
